@@ -42,6 +42,19 @@ def _ann_is_dict_of_set(a):
     return (s.startswith("Dict[") or s.startswith("dict[")) and ("Set[" in s.split(",", 1)[-1] or "set[" in s.split(",", 1)[-1])
 
 
+def _shape(text):
+    """source text of a site with every variable name replaced by `_` (attribute and function names kept)"""
+    try:
+        tree = ast.parse(text if not text.startswith("for ") else text + ":\n    pass")
+    except SyntaxError:
+        return text
+    keep = {n.func.id for n in ast.walk(tree) if isinstance(n, ast.Call) and isinstance(n.func, ast.Name)}
+    for n in ast.walk(tree):
+        if isinstance(n, ast.Name) and n.id not in keep:
+            n.id = "_"
+    return ast.unparse(tree)
+
+
 RUN_DEPENDENT_NAMES = {"hash", "id"}
 RUN_DEPENDENT_ATTRS = {("time", "time"), ("time", "time_ns"), ("time", "monotonic"), ("time", "perf_counter"), ("datetime", "now"), ("datetime", "utcnow"), ("datetime", "today"),
                        ("date", "today"), ("random", "random"), ("random", "randint"), ("random", "choice"), ("random", "shuffle"), ("random", "sample"),
@@ -219,9 +232,18 @@ class ModuleScan:
             entry = None
             if not ok:
                 for s in self.sanitised:
-                    if s["function"] == key and s["site"] == text:
-                        entry = s
+                    if s["function"] == key and (s["site"] == text or _shape(s["site"]) == _shape(text)):
+                        entry = s       # (the same site up to the names of its variables: a renamed local does not change where the order goes)
                         break
+            if not ok and entry is None and isinstance(node, ast.Call) and isinstance(node.func, ast.Name) and node.func.id in ("list", "tuple"):
+                # `xs = list(<unordered>)` followed by `xs.sort()` (no key) in the same function: sorted in place before it is used
+                par = parents.get(node)
+                if isinstance(par, (ast.Assign, ast.AnnAssign)):
+                    tgt = par.targets[0] if isinstance(par, ast.Assign) else par.target
+                    if isinstance(tgt, ast.Name) and any(
+                            isinstance(c, ast.Call) and isinstance(c.func, ast.Attribute) and c.func.attr == "sort" and not c.args and not c.keywords
+                            and isinstance(c.func.value, ast.Name) and c.func.value.id == tgt.id and c.lineno > node.lineno for c in own if isinstance(c, ast.Call)):
+                        ok, why = True, "sorted in place (list.sort() without key) before it is used"
             self.obligations.append(dict(name=f"ord/{key}#{n}", function=key, site=text, lineno=node.lineno,
                                          status="discharged" if (ok or entry) else "failed",
                                          rule=why or (("sanitised downstream: " + entry["sanitiser"]) if entry else ""),
